@@ -247,11 +247,13 @@ impl ParserContext<'_> {
         while let Some(token) = tokens.read() {
             let is_reexport = match token.parts()[0] {
                 Token::EXPORT => {
+                    // the name may be missing (a bare `export`); parsing the procedure below
+                    // reports that as an error
+                    let proc_name = token.parts().get(1).copied().unwrap_or("");
                     if !allow_export {
-                        let proc_name = token.parts()[1];
                         return Err(ParsingError::proc_export_not_allowed(token, proc_name));
                     }
-                    token.parts()[1].contains(LibraryPath::PATH_DELIM)
+                    proc_name.contains(LibraryPath::PATH_DELIM)
                 }
                 Token::PROC => {
                     // no validation needed, parse the procedure below
